@@ -16,7 +16,7 @@ from harness import sub_common as sc
 
 LEVEL = "model_checking"
 PROPS = ["IndependentJobsRun", "DependentsNeverRun", "ErrorNamesEveryFailedJob", "FailureIsReported", "NeverCrashes",
-         "StartAfterPredsSucceeded", "NoPendingAtEnd"]
+         "StartAfterPredsSucceeded", "NoPendingAtEnd", "ErrorOnlyIfFailure"]
 
 
 def run(ctx):
